@@ -3,9 +3,13 @@
 /verif/seeded/<PROP>-<k>/{patch.diff, demo/, meta.json}"""
 import glob, json, os, re, shutil, subprocess, sys
 V = os.path.dirname(os.path.dirname(os.path.abspath(__file__)))
-prop = sys.argv[1]
-checks = sys.argv[3] if len(sys.argv) > 3 and sys.argv[2] == "--checks" else prop
-src = "/tmp/mut/%s.out" % prop
+import argparse
+ap = argparse.ArgumentParser()
+ap.add_argument("prop"); ap.add_argument("--checks"); ap.add_argument("--src"); ap.add_argument("--offset", type=int, default=0)
+A = ap.parse_args()
+prop = A.prop
+checks = A.checks or prop
+src = A.src or "/tmp/mut/%s.out" % prop
 notes = []
 try:
     notes = json.load(open(src + "/notes.json"))
@@ -35,7 +39,7 @@ for k in (1, 2):
         res = json.loads(p.stdout[p.stdout.index("{"):])
     except Exception:
         print("seedtest failed:", p.stdout[-1500:], p.stderr[-1500:]); continue
-    dst = "%s/seeded/%s-%d" % (V, prop, k)
+    dst = "%s/seeded/%s-%d" % (V, prop, k + A.offset)
     shutil.rmtree(dst, ignore_errors=True)
     os.makedirs(dst)
     shutil.copy(patch, dst + "/patch.diff")
@@ -51,5 +55,5 @@ for k in (1, 2):
             "checks": res.get("checks")}
     json.dump(meta, open(dst + "/meta.json", "w"), indent=1)
     c = res.get("checks", {})
-    print(prop, k, {kk: res.get(kk) for kk in ("compiles", "suite_still_passes", "demo_passes_without_change", "demo_fails_with_change")},
+    print(prop, k + A.offset, {kk: res.get(kk) for kk in ("compiles", "suite_still_passes", "demo_passes_without_change", "demo_fails_with_change")},
           {cc: (c[cc]["exit"], c[cc].get("replay_kind")) for cc in c})
